@@ -25,20 +25,48 @@ _EC_CACHE = {}
 _MANAGER_CACHE = {}
 
 
-def eval_config(frame, target_names, policy):
-    """A real PerceptionEvaluationConfig (no dataset is loaded); cached per parameter set."""
+def eval_config(frame, target_names, policy, task="detection", mgr=None):
+    """A real PerceptionEvaluationConfig (no dataset is loaded); cached per parameter set.  `mgr`: evaluator-level filter options
+    {max_dist, min_dist | (default: x/y box of 1000 m), min_pts, ignore, uuids, conf}."""
     from perception_eval.config import PerceptionEvaluationConfig
 
-    key = (frame, tuple(target_names), policy)
+    mgr = mgr or {}
+    key = (frame, tuple(target_names), policy, task, repr(sorted(mgr.items())))
+    if key not in _EC_CACHE and frame == "cam":
+        d = {"evaluation_task": "detection2d", "target_labels": list(target_names), "center_distance_thresholds": [10.0],
+             "iou_2d_thresholds": [0.5], "label_prefix": "autoware", "merge_similar_labels": False, "matching_label_policy": policy}
+        _EC_CACHE[key] = PerceptionEvaluationConfig([], "cam_front", os.path.join(BUILD, "c03_results", str(os.getpid())), d, False)
     if key not in _EC_CACHE:
         n = len(target_names)
-        d = {"evaluation_task": "detection", "target_labels": list(target_names), "max_x_position": 1000.0, "max_y_position": 1000.0,
+        d = {"evaluation_task": task, "target_labels": list(target_names),
              "center_distance_thresholds": [1.0], "plane_distance_thresholds": [2.0], "iou_2d_thresholds": [0.5],
-             "iou_3d_thresholds": [0.5], "min_point_numbers": [0] * n, "max_matchable_radii": 5.0, "label_prefix": "autoware",
+             "iou_3d_thresholds": [0.5], "min_point_numbers": mgr.get("min_pts") or [0] * n, "max_matchable_radii": 5.0, "label_prefix": "autoware",
              "merge_similar_labels": False, "matching_label_policy": policy}
-        _EC_CACHE[key] = PerceptionEvaluationConfig(["/repo/perception_eval/test/sample_data"], frame,
+        if mgr.get("max_dist") is not None:
+            d["max_distance"], d["min_distance"] = mgr["max_dist"], mgr["min_dist"]
+        else:
+            d["max_x_position"], d["max_y_position"] = 1000.0, 1000.0
+        for k, name in (("ignore", "ignore_attributes"), ("uuids", "target_uuids"), ("conf", "confidence_threshold")):
+            if mgr.get(k) is not None:
+                d[name] = mgr[k]
+        _EC_CACHE[key] = PerceptionEvaluationConfig([os.path.join(os.environ.get("VERIF_REPO", "/repo"), "perception_eval/test/sample_data")], frame,
                                                     os.path.join(BUILD, "c03_results", str(os.getpid())), d, False)
     return _EC_CACHE[key]
+
+
+def expected_mgr_cfg(case):
+    """the evaluator-level filter criteria as the configuration dict of `eval_config` documents them, in the JSON shape of C10.py"""
+    mgr = case.get("mgr") or {}
+    names = case["crit"]["targets"]
+    n = len(names)
+    per = lambda v: None if v is None else ([float(x) for x in v] if isinstance(v, list) else [float(v)] * n)  # noqa: E731
+    cfg = {"targets": [("autoware", t) for t in names], "ignore": mgr.get("ignore"), "max_x": None, "max_y": None, "max_dist": None,
+           "min_dist": None, "min_pts": [int(x) for x in (mgr.get("min_pts") or [0] * n)], "conf": per(mgr.get("conf")), "uuids": mgr.get("uuids")}
+    if mgr.get("max_dist") is not None:
+        cfg["max_dist"], cfg["min_dist"] = per(mgr["max_dist"]), per(mgr["min_dist"])
+    else:
+        cfg["max_x"], cfg["max_y"] = [1000.0] * n, [1000.0] * n
+    return cfg
 
 
 def frame_ground_truth(case, gts):
@@ -46,6 +74,8 @@ def frame_ground_truth(case, gts):
     from perception_eval.common.schema import FrameID
     from perception_eval.common.transform import HomogeneousMatrix
 
+    if case["frame"] == "cam":
+        return FrameGroundTruth(100, "0", list(gts))           # an image frame has no ego pose
     ego = case["ego"]
     return FrameGroundTruth(100, "0", list(gts), transforms=[HomogeneousMatrix(tuple(ego["pos"]), tuple(ego["quat"]),
                                                                               src=FrameID.BASE_LINK, dst=FrameID.MAP)])
@@ -86,6 +116,34 @@ def eq_keys(gts):
                 break
         keys.append(k)
     return keys
+
+
+def spec_keys(specs, frame):
+    """the documented key of DynamicObject.__eq__ (time, label, position, orientation), stated on the GENERATED ground truths -- not
+    through `==` itself: class index = first ground truth with the same label, position and orientation (2D objects define no
+    __eq__: every object is its own class)"""
+    if frame == "cam":
+        return list(range(len(specs)))
+    seen, keys = {}, []
+    for i, d in enumerate(specs):
+        k = (d.get("family", "autoware"), d["label"], tuple(float(v) for v in d["pos"]), tuple(round(float(v), 9) for v in d.get("quat", [1.0, 0.0, 0.0, 0.0])))
+        keys.append(seen.setdefault(k, i))
+    return keys
+
+
+def keys_vs_spec(specs, frame, gt_keys, ids=None):
+    """None = fine; "skip" = two generated ground truths really share a key (outside the quantifier); otherwise what `==` gets wrong"""
+    want = spec_keys(specs, frame)
+    ids = list(range(len(specs))) if ids is None else ids
+    sub = [want[i] for i in ids]
+    for a in range(len(ids)):
+        for b in range(a):
+            same_spec, same_eq = sub[a] == sub[b], gt_keys[a] == gt_keys[b]
+            if same_eq and not same_spec:
+                da, db = specs[ids[a]], specs[ids[b]]
+                return (f"ground truths {ids[b]} ({db['label']} at {db['pos']}, orientation {db.get('quat')}) and {ids[a]} ({da['label']} at {da['pos']}, "
+                        f"orientation {da.get('quat')}) compare equal (==) although they differ in label, position or orientation")
+    return "skip" if len(set(sub)) != len(sub) else None
 
 
 def observe_frame(fr, ests, gts, results):
@@ -182,6 +240,7 @@ def accounting_oracle(case, obs):
         return f"{len(surv)} surviving results but TP + FP = {len(tp)} + {len(fp)}"
     # 4. a TP has a label-compatible ground truth whose score beats the threshold of the GT's label
     thr_targets, thr_list = obs["pf_targets"], obs["pf_thresholds"]
+    sgn = -1 if obs.get("score_negated") else 1        # 2D: the score is -IoU and the thresholds are negated ("larger is better")
     score = {(e, g): (l, s) for (e, g), l, s in zip(map(tuple, obs["pairs"]), obs["label_ok"], obs["score"])}
     for e, g in tp:
         if g is None:
@@ -194,7 +253,8 @@ def accounting_oracle(case, obs):
             t = thr_list[thr_targets.index(gf[g]["lid"])]
             s = score[(e, g)][1]
             if s is None or not (F(s) < F(t)):
-                return f"TP ({e},{g}) has pass/fail score {s}, not better than the threshold {t} of its ground truth's label"
+                return (f"TP ({e},{g}) has pass/fail score {None if s is None else sgn * s}, not better than the threshold {sgn * t} of its "
+                        f"ground truth's label ({'IoU 2D, larger is better' if sgn < 0 else 'plane distance, smaller is better'})")
     # 4b. documented meaning of a match with an FP-labelled ground truth (is_result_correct: "Return False, if label
     #     of GT is FP and matching"): hit better than the threshold -> matched FP; missed / no threshold -> TN
     for e, g in surv:
@@ -216,6 +276,20 @@ def accounting_oracle(case, obs):
 
 
 # ------------------------------------------------------------------------------------------------
+YAW_Q = [[1.0, 0.0, 0.0, 0.0], [0.0, 0.0, 0.0, 1.0], [0.6, 0.0, 0.0, 0.8], [0.8, 0.0, 0.0, -0.6], [0.28, 0.0, 0.0, 0.96]]
+BOXES = [(2.0, 1.0, 1.0), (4.0, 2.0, 1.5), (1.0, 1.0, 2.0)]
+
+
+def _quat(frame, ego, yaw_i):
+    """orientation of an object with ego-relative yaw YAW_Q[yaw_i], rendered in `frame`"""
+    from pyquaternion import Quaternion
+
+    q = Quaternion(YAW_Q[yaw_i])
+    if frame == "map":
+        q = Quaternion(ego["quat"]) * q
+    return [float(v) for v in q.elements]
+
+
 def gen_frame(rng, stream):
     frame = "base_link" if rng.random() < 0.4 else "map"
     ego = rng.choice(EGO_POSES)
@@ -223,39 +297,52 @@ def gen_frame(rng, stream):
     ne = rng.choice([0, 1, 2, 3, 5, 8]) if stream == "boundary" else rng.randint(2, 9)
     n_t = rng.choice([1, 2, 3, 4])
     targets = rng.sample(LABEL_POOL, n_t)
+    # boxes: mostly the same box everywhere (plane distance = the x offset: exact threshold hits); in the other frames sizes and yaws
+    # differ, so that plane distance, BEV centre distance and 3D centre distance are three different numbers
+    plain = rng.random() < 0.45
     gts, used = [], set()
     while len(gts) < ng:
         p = (float(rng.randint(-14, 14)), float(rng.randint(-7, 7)))
         if rng.random() < 0.35:
             p = (float(rng.choice([-10, 10, 8, 6, 3, -3])), float(rng.choice([-5, 5, 0, 4, -4])))
-        if p in used:
-            continue                       # ground truths with identical __eq__ keys are outside the quantifier
-        used.add(p)
         lab = rng.choice(targets + targets + ["false_positive", "truck", "unknown"])
+        yaw_i = 0 if plain else rng.randrange(len(YAW_Q))
+        if gts and rng.random() < 0.12:
+            # a second ground truth at the very position of another one: their __eq__ keys (time, label, position, orientation) still
+            # differ when the label or the orientation does -- each of them is accounted for on its own
+            p = tuple(rng.choice(gts)["ego_xy"])
+        if (p, lab, yaw_i) in used:
+            continue                       # ground truths with identical __eq__ keys are outside the quantifier
+        used.add((p, lab, yaw_i))
         gts.append({"family": "autoware", "label": lab, "name": rng.choice(NAMES[lab]),
                     "attrs": rng.sample(["vehicle_state.parked", "cycle_state.without_rider"], rng.choice([0, 0, 0, 1])),
                     "conf": 1.0, "uuid": rng.choice(UUIDS), "pts": rng.choice([0, 1, 3, 5, 10]),
-                    "pos": ego_to_frame(frame, ego, (p[0], p[1], 0.0)), "ego_xy": list(p),
-                    "quat": list(ego["quat"]) if frame == "map" else [1.0, 0.0, 0.0, 0.0]})
+                    "pos": ego_to_frame(frame, ego, (p[0], p[1], 0.0 if plain else rng.choice([0.0, 0.0, 0.5]))), "ego_xy": list(p),
+                    "quat": _quat(frame, ego, yaw_i), "yaw_i": yaw_i, "size": list(BOXES[0] if plain else rng.choice(BOXES))})
     free = list(range(ng))
     rng.shuffle(free)
     ests, pairs = [], []
     for e in range(ne):
         lab = rng.choice(targets + ["unknown", "truck"])
         conf = rng.randint(1, 64) / 64.0
+        yaw_i, size = 0, BOXES[0]
         if free and rng.random() < 0.7:
             g = free.pop()
             if rng.random() < 0.7 and gts[g]["label"] != "false_positive":
                 lab = gts[g]["label"]
             dx = rng.choice([0.0, 0.5, 1.0, 1.0, 1.5, 2.0, 2.5, 4.0])
-            ex, ey = gts[g]["ego_xy"][0] + dx * rng.choice([-1, 1]), gts[g]["ego_xy"][1]
+            dy = 0.0 if plain or rng.random() < 0.5 else rng.choice([0.5, -0.5, 1.0, -2.0])
+            ex, ey = gts[g]["ego_xy"][0] + dx * rng.choice([-1, 1]), gts[g]["ego_xy"][1] + dy
+            yaw_i, size = gts[g]["yaw_i"], gts[g]["size"]
+            if not plain and rng.random() < 0.4:
+                yaw_i, size = rng.randrange(len(YAW_Q)), rng.choice(BOXES)
             pairs.append([e, g])
         else:
             ex, ey = lat(rng, -14, 14), lat(rng, -7, 7)
             pairs.append([e, None])
         ests.append({"family": "autoware", "label": lab, "name": rng.choice(NAMES[lab]), "attrs": [], "conf": conf, "uuid": None,
                      "pts": None, "pos": ego_to_frame(frame, ego, (ex, ey, 0.0)), "ego_xy": [ex, ey],
-                     "quat": list(ego["quat"]) if frame == "map" else [1.0, 0.0, 0.0, 0.0]})
+                     "quat": _quat(frame, ego, yaw_i), "size": list(size)})
     rng.shuffle(pairs)
     crit = {"targets": targets + (rng.sample([l for l in LABEL_POOL if l not in targets], 1) if rng.random() < 0.2 and n_t < 6 else [])}
     n_c = len(crit["targets"])
@@ -265,6 +352,15 @@ def gen_frame(rng, stream):
     else:
         crit["max_dist"] = [rng.choice([10.0, 5.0, 12.5, 100.0]) for _ in range(n_c)]
         crit["min_dist"] = [rng.choice([0.0, 0.0, 3.0, 5.0]) for _ in range(n_c)]
+    _crit_options(rng, crit, n_c)
+    pf = {"targets": rng.choice([crit["targets"], targets, rng.sample(LABEL_POOL, rng.choice([1, 2, 3])), None, None])}
+    n_pf = 9 if not pf["targets"] else len(pf["targets"])
+    pf["thresholds"] = None if rng.random() < 0.15 else [rng.choice([0.5, 1.0, 1.0, 2.0, 3.0]) for _ in range(n_pf)]
+    return {"frame": frame, "ego": ego, "ests": ests, "gts": gts, "pairs": pairs, "crit": crit, "pf": pf,
+            "policy": rng.choice(POLICIES), "stream": stream, "boxes": "plain" if plain else "varied"}
+
+
+def _crit_options(rng, crit, n_c):
     if rng.random() < 0.4:
         crit["min_pts"] = [rng.choice([0, 1, 3, 5]) for _ in range(n_c)]
     if rng.random() < 0.4:
@@ -273,11 +369,67 @@ def gen_frame(rng, stream):
         crit["uuids"] = rng.sample(UUIDS, rng.choice([0, 2, 3, 4]))
     if rng.random() < 0.25:
         crit["ignore"] = rng.choice([[], ["vehicle_state.parked"], ["cycle_state.without_rider", "construction"]])
+
+
+# IoU of an 8-px-lattice ROI pair: nested boxes give 1/2, 1/4, 1/8 exactly (threshold hits), shifted equal boxes 1/3, 3/5, 1/7, 0
+ROI_PAIRS = [((0, 0, 16, 16), (0, 0, 16, 16)), ((0, 0, 16, 16), (0, 0, 16, 8)), ((0, 0, 16, 16), (4, 4, 8, 8)), ((0, 0, 16, 16), (0, 0, 8, 4)),
+             ((0, 0, 16, 16), (8, 0, 16, 16)), ((0, 0, 16, 16), (4, 0, 16, 16)), ((0, 0, 16, 16), (12, 0, 16, 16)), ((0, 0, 16, 16), (16, 0, 16, 16)),
+             ((0, 0, 16, 16), (40, 40, 8, 8)), ((0, 0, 8, 32), (0, 8, 8, 16)), ((0, 0, 32, 8), (0, 0, 24, 8))]
+THR_IOU = [0.5, 0.5, 0.25, 0.125, 0.75, 0.0]
+
+
+def gen_frame2d(rng, stream):
+    """a camera frame of a detection2d task: ROI objects without a position (no critical x/y/distance criterion can apply), pass/fail by
+    IoU 2D -- LARGER is better"""
+    ng = rng.choice([0, 1, 2, 3, 5]) if stream == "boundary" else rng.randint(2, 8)
+    ne = rng.choice([0, 1, 2, 3, 5]) if stream == "boundary" else rng.randint(2, 8)
+    n_t = rng.choice([1, 2, 3, 4])
+    targets = rng.sample(LABEL_POOL, n_t)
+    gts = []
+    for k in range(ng):
+        lab = rng.choice(targets + targets + ["false_positive", "truck", "unknown"])
+        x0, y0 = 64 * (k % 4) + 8 * rng.randint(0, 2), 64 * (k // 4) + 8 * rng.randint(0, 2)
+        if gts and rng.random() < 0.1:
+            x0, y0 = gts[-1]["at"]                   # two annotations of one image region (ROIs have no __eq__: always two objects)
+        gts.append({"family": "autoware", "label": lab, "name": rng.choice(NAMES[lab]),
+                    "attrs": rng.sample(["vehicle_state.parked", "cycle_state.without_rider"], rng.choice([0, 0, 0, 1])),
+                    "conf": 1.0, "uuid": rng.choice(UUIDS), "pts": None, "at": [x0, y0], "roi": None})
+    free = list(range(ng))
+    rng.shuffle(free)
+    ests, pairs = [], []
+    for e in range(ne):
+        lab = rng.choice(targets + ["unknown", "truck"])
+        conf = rng.randint(1, 64) / 64.0
+        if free and rng.random() < 0.75:
+            g = free.pop()
+            if rng.random() < 0.7 and gts[g]["label"] != "false_positive":
+                lab = gts[g]["label"]
+            a, b = rng.choice(ROI_PAIRS)
+            if rng.random() < 0.5:
+                a, b = b, a
+            x0, y0 = gts[g]["at"]
+            gts[g]["roi"] = [x0 + a[0], y0 + a[1], a[2], a[3]]
+            roi = [x0 + b[0], y0 + b[1], b[2], b[3]]
+            pairs.append([e, g])
+        else:
+            roi = [8 * rng.randint(0, 40), 8 * rng.randint(30, 40), 8, 16]
+            pairs.append([e, None])
+        ests.append({"family": "autoware", "label": lab, "name": rng.choice(NAMES[lab]), "attrs": [], "conf": conf, "uuid": None, "pts": None, "roi": roi})
+    for g in gts:
+        if g["roi"] is None:
+            g["roi"] = [g["at"][0], g["at"][1], 16, 16]
+    rng.shuffle(pairs)
+    crit = {"targets": targets + (rng.sample([l for l in LABEL_POOL if l not in targets], 1) if rng.random() < 0.2 and n_t < 6 else [])}
+    n_c = len(crit["targets"])
+    if rng.random() < 0.3:                           # position bounds may be given: nothing on an image has a position they could reject
+        crit["max_x"], crit["max_y"] = [rng.choice([10.0, 3.0]) for _ in range(n_c)], [rng.choice([5.0, 4.0]) for _ in range(n_c)]
+    _crit_options(rng, crit, n_c)
+    crit.pop("min_pts", None)
     pf = {"targets": rng.choice([crit["targets"], targets, rng.sample(LABEL_POOL, rng.choice([1, 2, 3])), None, None])}
     n_pf = 9 if not pf["targets"] else len(pf["targets"])
-    pf["thresholds"] = None if rng.random() < 0.15 else [rng.choice([0.5, 1.0, 1.0, 2.0, 3.0]) for _ in range(n_pf)]
-    return {"frame": frame, "ego": ego, "ests": ests, "gts": gts, "pairs": pairs, "crit": crit, "pf": pf,
-            "policy": rng.choice(POLICIES), "stream": stream}
+    pf["thresholds"] = None if rng.random() < 0.15 else [rng.choice(THR_IOU) for _ in range(n_pf)]
+    return {"frame": "cam", "ego": None, "ests": ests, "gts": gts, "pairs": pairs, "crit": crit, "pf": pf,
+            "policy": rng.choice(POLICIES), "stream": stream + "-2d"}
 
 
 def _g(label, xy, uuid="a", pts=3, frame="base_link", ego=None):
@@ -356,8 +508,9 @@ class FrameResultCorr(Corr):
         shutil.rmtree(os.path.join(BUILD, "c03_results"), ignore_errors=True)   # log dirs of earlier runs (one per worker process)
         out = _regressions()
         n = 420 if tier == "quick" else 6000
-        for _ in range(n):
-            out.append(gen_frame(rng, "typical" if rng.random() < 0.7 else "boundary"))
+        for k in range(n):
+            st = "typical" if rng.random() < 0.7 else "boundary"
+            out.append(gen_frame2d(rng, st) if k % 5 == 3 else gen_frame(rng, st))     # every fifth frame: a detection2d camera frame
         return out
 
     def _build(self, case):
@@ -373,6 +526,18 @@ class FrameResultCorr(Corr):
         ec = eval_config(case["frame"], case["crit"]["targets"], case["policy"])
         return ests, gts, fgt, results, ec, crit_config(ec, case["crit"]), pf_config(ec, case["pf"])
 
+    @staticmethod
+    def _score(case, r):
+        """the pass/fail score as the model's "smaller is better" number: the plane distance (3D) or MINUS the IoU 2D (2D tasks: a larger
+        IoU is better; the thresholds are negated alike, so `-iou < -thr` is `iou > thr`, exactly)"""
+        if r.ground_truth_object is None:
+            return None
+        if case["frame"] == "cam":
+            v = r.iou_2d.value
+            return None if v is None else -float(v)
+        v = r.plane_distance.value
+        return None if v is None else float(v)
+
     def run_impl(self, case):
         from perception_eval.evaluation import PerceptionFrameResult
 
@@ -380,19 +545,28 @@ class FrameResultCorr(Corr):
         obs = {"pairs": [list(p) for p in case["pairs"]],
                "est_facts": [object_facts(o, fgt.transforms) for o in ests], "gt_facts": [object_facts(o, fgt.transforms) for o in gts],
                "gt_keys": eq_keys(gts), "label_ok": [bool(r.is_label_correct) for r in results],
-               "score": [None if r.plane_distance.value is None else float(r.plane_distance.value) for r in results],
+               "score": [self._score(case, r) for r in results],
                "crit": cfg_from_params(crit.filtering_params),
                "pf_targets": None if pf.target_labels is None else [label_id(l) for l in pf.target_labels],
                "pf_thresholds": pf.matching_threshold_list}
+        two_d = case["frame"] == "cam"
+        if two_d:
+            obs["score_negated"] = True
+            if pf.matching_threshold_list is not None:
+                obs["pf_thresholds"] = [-float(t) for t in pf.matching_threshold_list]
         fr = PerceptionFrameResult(list(results), fgt, ec.metrics_config, crit, pf, 100, ec.target_labels)
         fr.evaluate_frame()
         obs.update(observe_frame(fr, ests, gts, results))
+        if two_d:
+            obs["map_modes"] = [m.matching_mode.name for m in fr.metrics_score.maps]
         # the SAME result objects judged once more under other pass/fail thresholds (a re-evaluation of stored frame results, as
         # filter_frame_by_distance-style tooling does): the judgement must depend on the thresholds given now, not on the earlier call
         if pf.matching_threshold_list is not None:
             from perception_eval.evaluation.result.perception_pass_fail_result import PassFailResult
 
             thr2 = [{0.5: 2.0, 1.0: 0.5, 2.0: 1.0, 3.0: 0.5}.get(t, 1.0) for t in pf.matching_threshold_list]
+            if two_d:
+                thr2 = [{0.5: 0.25, 0.25: 0.5, 0.75: 0.125, 0.125: 0.75, 0.0: 0.5}.get(t, 0.5) for t in pf.matching_threshold_list]
             pf2 = pf_config(ec, dict(case["pf"], thresholds=thr2))
             p2 = PassFailResult(100, 0, crit, pf2, transforms=fgt.transforms)
             p2.evaluate(fr.object_results, fr.frame_ground_truth.objects)
@@ -400,7 +574,7 @@ class FrameResultCorr(Corr):
             class _Fr:       # the same frame with the second judgement
                 object_results, frame_ground_truth, pass_fail_result = fr.object_results, fr.frame_ground_truth, p2
             o2 = observe_frame(_Fr, ests, gts, results)
-            o2["pf_thresholds"] = pf2.matching_threshold_list
+            o2["pf_thresholds"] = [-float(t) for t in pf2.matching_threshold_list] if two_d else pf2.matching_threshold_list
             obs["second"] = o2
         return obs
 
@@ -423,8 +597,11 @@ class FrameResultCorr(Corr):
                 f"map res_pair (f_tp f), map res_pair (f_fp f), ids (f_tn f), ids (f_fn f)) | _ => None end")
 
     def oracle(self, case, obs):
-        if len(set(obs["gt_keys"])) != len(obs["gt_keys"]):
-            return None      # ground truths with equal __eq__ keys: outside the quantifier (never generated)
+        k = keys_vs_spec(case["gts"], case["frame"], obs["gt_keys"])
+        if k is not None:
+            return None if k == "skip" else k      # ground truths that really share an __eq__ key: outside the quantifier
+        if "map_modes" in obs and obs["map_modes"] != ["CENTERDISTANCE", "IOU2D"]:
+            return f"detection2d frame: metrics_score.maps are {obs['map_modes']} (configured: one centre-distance and one IoU-2D threshold list)"
         r = accounting_oracle(case, obs)
         if r is None and "second" in obs:
             o2 = dict(obs, **obs["second"])
@@ -444,13 +621,17 @@ class FrameResultCorr(Corr):
                 "observed": {k: obs.get(k) for k in ("results", "gts", "tp", "fp", "tn", "fn", "num_success", "num_fail")}}
 
     def distribution(self, cases, obs):
-        d = {"frames": {}, "policies": {}, "results_in": 0, "results_surviving": 0, "gts_in": 0, "gts_critical": 0, "TP": 0, "FP": 0, "TN": 0,
+        d = {"frames": {}, "policies": {}, "box_styles": {}, "gts_sharing_a_position": 0, "results_in": 0, "results_surviving": 0, "gts_in": 0, "gts_critical": 0, "TP": 0, "FP": 0, "TN": 0,
              "FN": 0, "fp_reemitted_gtless": 0, "fp_with_fp_labelled_gt": 0, "score_on_threshold": 0, "no_threshold_frames": 0}
         for c, o in zip(cases, obs):
             if "tp" not in o:
                 continue
             d["frames"][c["frame"]] = d["frames"].get(c["frame"], 0) + 1
             d["policies"][c["policy"]] = d["policies"].get(c["policy"], 0) + 1
+            bs = c.get("boxes", "2d" if c["frame"] == "cam" else "plain")
+            d["box_styles"][bs] = d["box_styles"].get(bs, 0) + 1
+            spots = [tuple(g.get("ego_xy") or g.get("at") or ()) for g in c["gts"]]
+            d["gts_sharing_a_position"] += len(spots) - len(set(spots))
             d["results_in"] += len(c["pairs"])
             d["results_surviving"] += len(o["results"])
             d["gts_in"] += len(c["gts"])
@@ -478,10 +659,33 @@ class ManagerCorr(FrameResultCorr):
     def cases(self, tier, rng):
         out = []
         n = 120 if tier == "quick" else 1500
-        for c in _regressions()[:5] + [gen_frame(rng, "typical" if rng.random() < 0.7 else "boundary") for _ in range(n)]:
+        for k, c in enumerate(_regressions()[:5] + [gen_frame(rng, "typical" if rng.random() < 0.7 else "boundary") for _ in range(n)]):
             c = dict(c)
             c["crit"] = dict(c["crit"])
             c["crit"].pop("uuids", None)
+            if k >= 5:
+                n_t = len(c["crit"]["targets"])
+                # evaluator-level filter settings other than the wide x/y box: distance ring, point numbers, ignored attributes, confidence,
+                # target uuids (ground truths by uuid BEFORE matching, then the results without such a ground truth AFTER matching)
+                mgr = {}
+                r = rng.random()
+                if r < 0.25:
+                    mgr["max_dist"] = rng.choice([1000.0, 14.0, 12.5]) if rng.random() < 0.5 else [rng.choice([1000.0, 14.0, 10.0]) for _ in range(n_t)]
+                    mgr["min_dist"] = rng.choice([0.0, 0.0, 3.0]) if rng.random() < 0.5 else [rng.choice([0.0, 0.0, 3.0, 5.0]) for _ in range(n_t)]
+                if rng.random() < 0.2:
+                    mgr["min_pts"] = [rng.choice([0, 1, 3, 5]) for _ in range(n_t)]
+                if rng.random() < 0.15:
+                    mgr["ignore"] = rng.choice([["vehicle_state.parked"], ["cycle_state.without_rider", "construction"]])
+                if rng.random() < 0.15:
+                    mgr["conf"] = rng.choice([0.25, 0.5])
+                if rng.random() < 0.2:
+                    mgr["uuids"] = rng.sample(UUIDS, rng.choice([2, 3, 4]))
+                c["mgr"] = mgr
+                # the same pass/fail lists are demanded of a tracking evaluator, and of a manager that already holds an earlier frame
+                c["task"] = "tracking" if rng.random() < 0.3 else "detection"
+                c["history"] = rng.random() < 0.35
+                if c["task"] == "tracking":
+                    c["ests"] = [dict(d, uuid=f"t{i}") for i, d in enumerate(c["ests"])]
             out.append(c)
         return out
 
@@ -492,12 +696,21 @@ class ManagerCorr(FrameResultCorr):
         ests = [build_object(d, case["frame"]) for d in case["ests"]]
         gts = [build_object(d, case["frame"]) for d in case["gts"]]
         fgt = frame_ground_truth(case, gts)
-        ec = eval_config(case["frame"], case["crit"]["targets"], case["policy"])
+        ec = eval_config(case["frame"], case["crit"]["targets"], case["policy"], case.get("task", "detection"), case.get("mgr"))
         crit, pf = crit_config(ec, case["crit"]), pf_config(ec, case["pf"])
         if id(ec) not in _MANAGER_CACHE:
             _MANAGER_CACHE[id(ec)] = PerceptionEvaluationManager(ec)
         manager = _MANAGER_CACHE[id(ec)]
-        manager.frame_results.clear()          # every case is a first frame
+        manager.frame_results.clear()
+        if case.get("history"):
+            # an earlier frame (the same scene as fresh objects that compare EQUAL to the ones under test, a wide-open critical filter) is
+            # evaluated first: the frame
+            # under test is then NOT the manager's first frame (tracking: it has a predecessor)
+            e0 = [build_object(d, case["frame"]) for d in case["ests"]]
+            g0 = [build_object(d, case["frame"]) for d in case["gts"]]
+            f0 = frame_ground_truth(case, g0)
+            n_t = len(case["crit"]["targets"])
+            manager.add_frame_result(100, f0, e0, crit_config(ec, {"targets": case["crit"]["targets"], "max_x": [100.0] * n_t, "max_y": [100.0] * n_t}), pf)
         n_before = len(fgt.objects)
         fr = manager.add_frame_result(100, fgt, list(ests), crit, pf)
         # the matching the manager performed, recomputed through the public matching entry point on the
@@ -508,6 +721,11 @@ class ManagerCorr(FrameResultCorr):
         fg = filter_objects(list(gts), True, transforms=fgt.transforms, **ec.filtering_params)
         results = get_object_results(ec.evaluation_task, fe, fg, ec.target_labels, ec.label_params["matching_label_policy"],
                                      matchable_thresholds=ec.filtering_params["max_matchable_radii"], transforms=fgt.transforms)
+        uuids = (case.get("mgr") or {}).get("uuids")
+        if uuids:
+            # documented last step of the evaluator: with target uuids only results whose ground truth is a target remain (every ground
+            # truth that reached the matcher is one: its uuid is listed, or it is FP-labelled and therefore always kept)
+            results = [r for r in results if r.ground_truth_object is not None]
         ei = {id(o): i for i, o in enumerate(ests)}
         gi = {id(o): i for i, o in enumerate(gts)}
         obs = {"pairs": [[ei[id(r.estimated_object)], None if r.ground_truth_object is None else gi[id(r.ground_truth_object)]]
@@ -519,7 +737,8 @@ class ManagerCorr(FrameResultCorr):
                "crit": cfg_from_params(crit.filtering_params),
                "pf_targets": None if pf.target_labels is None else [label_id(l) for l in pf.target_labels],
                "pf_thresholds": pf.matching_threshold_list,
-               "manager_gt_ids": [gi[id(o)] for o in fg], "dataset_frame_untouched": len(fgt.objects) == n_before}
+               "manager_gt_ids": [gi[id(o)] for o in fg], "manager_est_ids": [ei[id(o)] for o in fe],
+               "dataset_frame_untouched": len(fgt.objects) == n_before, "n_frame_results": len(manager.frame_results)}
         obs.update(observe_frame(fr, ests, gts, results))
         return obs
 
@@ -537,11 +756,36 @@ class ManagerCorr(FrameResultCorr):
         return (f"match evaluate_frame {crit} {pf} {rs} {gts} with Ok f => Some (map res_pair (f_results f), ids (f_gts f), "
                 f"map res_pair (f_tp f), map res_pair (f_fp f), ids (f_tn f), ids (f_fn f)) | _ => None end")
 
+    def distribution(self, cases, obs):
+        d = super().distribution(cases, obs)
+        d.update({"evaluator_filter": {}, "tasks": {}, "frames_with_an_earlier_frame_in_the_manager": 0, "filtered_by_evaluator": 0})
+        for c, o in zip(cases, obs):
+            if "tp" not in o:
+                continue
+            for k in (c.get("mgr") or {}):
+                d["evaluator_filter"][k] = d["evaluator_filter"].get(k, 0) + 1
+            t = c.get("task", "detection")
+            d["tasks"][t] = d["tasks"].get(t, 0) + 1
+            d["frames_with_an_earlier_frame_in_the_manager"] += bool(c.get("history"))
+            d["filtered_by_evaluator"] += len(c["ests"]) + len(c["gts"]) - len(o.get("manager_est_ids", c["ests"])) - len(o["manager_gt_ids"])
+        return d
+
     def oracle(self, case, obs):
-        if len(set(obs["gt_keys"])) != len(obs["gt_keys"]):
-            return None
+        k = keys_vs_spec(case["gts"], case["frame"], obs["gt_keys"])
+        if k is not None:
+            return None if k == "skip" else k
+        if case.get("history") and obs.get("n_frame_results") != 2:
+            return f"the manager holds {obs.get('n_frame_results')} frame results after two add_frame_result calls"
         if not obs["dataset_frame_untouched"]:
             return "add_frame_result changed the object list of the ground-truth frame it was given"
+        # "all manager filter settings": what reaches the matcher is what the criteria of the configuration dict keep
+        want_cfg = expected_mgr_cfg(case)
+        for who, is_gt, facts_all, kept in (("estimates", False, obs["est_facts"], obs.get("manager_est_ids")),
+                                            ("ground truths", True, obs["gt_facts"], obs["manager_gt_ids"])):
+            want = [i for i, f in enumerate(facts_all) if doc_keep(f, want_cfg, is_gt, True)]
+            if kept is not None and want != kept:
+                return (f"evaluator configured with {case.get('mgr') or 'the 1000 m x/y box'}: the {who} handed to the matcher are {kept} but the "
+                        f"configured criteria select {want}")
         # the oracle is the same, with the ground truths that reach the frame as the frame's ground truths
         sub = dict(obs)
         keep = set(obs["manager_gt_ids"])
@@ -563,16 +807,30 @@ class C03(Prop):
                   "= TP + FP as a permutation, every critical ordinary GT is the GT of exactly one TP xor once in FN, every critical "
                   "FP-labelled GT is once in TN xor the GT of exactly one FP, |ordinary critical GT| = |TP|+|FN|, TP soundness, every counted "
                   "estimate / ground truth satisfies the critical predicate, success/fail counts. The model is compared with the real "
-                  "evaluate_frame / add_frame_result on generated frames in BASE_LINK and MAP (rational ego poses), scores exactly on thresholds.")
-    level_note = ("Trusted: Coq kernel+vm_compute; facts (label ids, ego-relative coordinates, is_label_correct, plane-distance value, "
-                  "__eq__ classes) read from the real objects; 3D pass/fail mode (plane distance) only.")
+                  "evaluate_frame / add_frame_result on generated frames in BASE_LINK and MAP (rational ego poses), scores exactly on thresholds, "
+                  "and with evaluate_frame of a detection2d evaluator on camera frames (IoU-2D pass/fail score, larger is better).")
+    level_note = ("Trusted: Coq kernel+vm_compute; facts (label ids, ego-relative coordinates, is_label_correct, pass/fail score value) read "
+                  "from the real objects; the __eq__ classes of the ground truths are computed with `==` for the model and, for the oracle, "
+                  "decided on the generated label / position / orientation. 2D tasks: the model's 'smaller is better' score is MINUS the IoU 2D "
+                  "with negated thresholds (an exact re-encoding of 'larger is better').")
     rule = ("generated frames (typical / boundary) x {base_link, map with 6 ego poses} x 3 label policies x xy-box or distance-ring critical "
-            "filters with optional point/confidence/uuid/ignore criteria; non-trivial = at least two of TP/FP/TN/FN non-empty and something filtered")
+            "filters with optional point/confidence/uuid/ignore criteria; boxes either plain (one box, x offsets: plane distance = offset, exact "
+            "threshold hits) or varied (3 sizes, 5 yaws, x and y offsets, z: plane distance, BEV and 3D centre distance differ); ground truths that "
+            "share a position but differ in label or orientation (distinct __eq__ keys); every fifth frame a detection2d camera frame (ROI objects "
+            "without position, pass/fail by IoU 2D with exact 1/2, 1/4, 1/8 hits, position bounds given but inapplicable); the same results judged "
+            "twice under other thresholds; manager: evaluator-level distance ring / min point numbers / ignored attributes / confidence / target "
+            "uuids (expected selection derived from the configuration dict), detection and tracking evaluators, 35 % of the frames with an earlier "
+            "frame (equal objects) already held by the manager; pipeline: evaluator-level ring / point numbers / ignored attributes, co-located "
+            "ground truths, generator-coordinate check of every object; non-trivial = at least two of TP/FP/TN/FN non-empty and something filtered")
     assumptions = ["matching one-to-one (C01) and every matched ground truth belongs to the frame",
                    "ground-truth __eq__ keys (time, label, position, orientation) pairwise distinct",
-                   "well-formed critical filter and pass/fail configuration (lists as long as their target lists)"]
-    not_proved = ["2D tasks (IOU2D pass/fail score)", "metrics_score side of evaluate_frame (C04/C05)",
-                  "sequences of frames: evaluate_frame is a function of its frame only in the model (history independence is C13)"]
+                   "well-formed critical filter and pass/fail configuration (lists as long as their target lists)",
+                   "an FP-labelled ground truth is never rejected by a criterion (the documented relaxation of the filter): the clause 'nothing "
+                   "outside the critical region is counted' is therefore not checked for FP-labelled ground truths (TN / matched FP)"]
+    not_proved = ["2D tasks are covered by the correspondence and the oracle (score re-encoded), not by a separate theorem about IoU",
+                  "metrics_score side of evaluate_frame (C04/C05)",
+                  "sequences of frames: evaluate_frame is a function of its frame only in the model (history independence is C13; here a "
+                  "frame with a predecessor in the manager must give the same lists)"]
 
     def correspondences(self):
         from harness.props.pipeline_corr import PipelineCorr
